@@ -87,8 +87,13 @@ func (t *twin) list(d int) {
 		case "text":
 			t.both(r.Pick([]string{"a", " ", "&", "\n"}))
 		case "yield":
-			b := r.Pick([]string{"tb1", "tb2"})
-			if r.Bool() {
+			b := r.Pick([]string{"tb1", "tb2", "tb3"})
+			if r.Chance(25) {
+				// from inside the body of a block that was yielded with content: the active content stays
+				// available to the yielded block, whichever way it is yielded
+				c := r.Pick([]string{"s", "i", `"c"`})
+				t.both("{{yield tw() " + c + " content}}C<{{.}}>{{end}}")
+			} else if r.Bool() {
 				c := r.Pick([]string{"s", "i", "st.B", `"c"`, "ls", "np", "li"})
 				t.emit("{{yield "+b+"() "+c+"}}", `{{ apiYield("`+b+`", `+c+`) }}`)
 			} else {
@@ -161,6 +166,9 @@ func twinProg(r *h.Rand) (*prog, string, string) {
 	hdr := `{{block tb1()}}(tb1:{{.}}:{{isset(x)}}{{s}}){{end}}{{block tb2()}}(tb2{{ y := 7 }}{{y}}{{.}}){{end}}`
 	// the definitions render once in place; identical in both spellings
 	t.both(hdr)
+	t.both(`{{block tb3()}}(tb3:{{.}}:{{yield content}}){{end}}`)
+	t.emit(`{{block tw()}}[{{yield tb3() 4}}|{{yield tb3()}}|{{yield tb1() "q"}}|{{yield content}}]{{end}}`,
+		`{{block tw()}}[{{ apiYield("tb3", 4) }}|{{ apiYield("tb3") }}|{{ apiYield("tb1", "q") }}|{{yield content}}]{{end}}`)
 	t.list(2)
 	t.both("#[{{isset(x)}}{{isset(y)}}{{isset(fresh)}}{{ g }}{{ s }}{{ i }}]")
 	p.files["/tinc.jet"] = `(inc:{{.}})`
